@@ -61,6 +61,11 @@ func (x *fx) resolveName(name string, at *ssa.BasicBlock, override map[*ssa.Phi]
 	if at == nil {
 		return TV{}, false
 	}
+	if nn, renamed := aliasesOf(x.fn).fwd[name]; renamed {
+		// the local was renamed since the binding cache was written (bindcache.go)
+		x.e.note(fmt.Sprintf("local %s of %s is read as %s (renamed; bound by its recorded fingerprint)", name, x.fn.Name(), nn))
+		name = nn
+	}
 	// header phis by comment
 	for _, in := range at.Instrs {
 		ph, ok := in.(*ssa.Phi)
